@@ -32,9 +32,9 @@ def remote_probe(ctx, rep, mine, deployments=DEPLOYMENTS):
         (wd / 'b' / 'h').write_bytes(shared + ctx.rng.randbytes(200))
         encrypted = ctx.rng.random() < 0.6
         if dep.startswith('b2'):
-            svc = fk.FakeB2('bkt', page_size=4, piece=64, max_requests=60000)
+            svc = fk.FakeB2('bkt', page_size=2, piece=64, max_requests=60000)
         else:
-            svc = fk.FakeS3('bkt', page_size=4, piece=64, max_requests=60000)
+            svc = fk.FakeS3('bkt', page_size=2, piece=64, max_requests=60000)
         uploads = []
         out = {}
 
@@ -205,6 +205,11 @@ def remote_fault_probe(ctx, rep, mine, n=6):
                 out['outcome'] = f'failed ({type(e).__name__})'
             out['fired'] = fault['fired']
             fault['on'] = False
+            if victim == 'delete' and out['outcome'] == 'completed':
+                # a delete that reports success has removed the snapshot and the chunks only it referenced
+                ra = await repo()
+                out['delete_left'] = ([sa.location] if sa.location in svc.objects else []) + \
+                    [c for c in map(ra._chunk_digest_to_location, sa.chunks) if c in svc.objects]
             r = await repo()
             objs = svc.objects
             out['visible'] = [loc for loc in objs if loc.startswith('snapshots/')]
@@ -298,6 +303,9 @@ def remote_fault_probe(ctx, rep, mine, n=6):
             _viol(rep, 'referenced_chunk_missing', f'after {what} (the command {out["outcome"]}) a visible snapshot misses {n_} of its chunks: it is listed but cannot be restored', dep)
         elif out['restore'] != 'ok' and 'restore_mismatch' in mine:
             _viol(rep, 'restore_mismatch', f'after {what} (the command {out["outcome"]}) restore fails: {out["restore"]}', dep)
+        if out.get('delete_left') and 'gc_incomplete' in mine:
+            _viol(rep, 'gc_incomplete', f'{what}: the delete command completed but left {len(out["delete_left"])} of the objects it was to remove '
+                                        '(the snapshot object and/or chunks only it referenced)', dep)
         if out['unknown'] and 'unknown_object' in mine:
             _viol(rep, 'unknown_object', f'after {what} a snapshot object is visible that no completed command wrote', dep)
         if out['after'] != 'ok' and 'exception' in mine:
